@@ -88,6 +88,7 @@ private:
   void                count();
 
   void                build_full_cache();
+  void                invalidate_caches();
 
   DhtBucket*          m_parent{};
   DhtBucket*          m_child{};
@@ -133,6 +134,8 @@ inline void
 DhtBucket::node_now_bad(bool was_good) {
   m_good -= was_good;
   m_bad++;
+
+  invalidate_caches();
 }
 
 inline raw_string
